@@ -61,7 +61,8 @@ def configs(tier, seed):
             ko = 1 if (tier == "thorough" and fam != "twice") else 0
             cfgs.append(dict(name="weights:%s:%s:K%d:omitted" % (pub, fam, ko), kind="weights", pub=pub, fam=fam, K=ko, total="omitted", cost=4))
             cfgs.append(dict(name="objective:%s:%s" % (pub, fam), kind="objective", pub=pub, fam=fam, cost=1))
-        cfgs.append(dict(name="history:%s" % pub, kind="history", pub=pub, K=0 if tier == "quick" else 1, cost=6))
+        cfgs.append(dict(name="history:%s" % pub, kind="history", pub=pub, K=0 if (tier == "quick" or pub != "three") else 1, cost=6,
+                         timeout=1500, core=(tier == "quick" or pub != "three")))
     return cfgs
 
 
